@@ -81,7 +81,19 @@ fn build_rec(t: &Tree, rec: &Arc<Recorder>, handles: &mut HashMap<u32, (Arc<Atom
             let mut kids = Vec::new();
             for c in l { kids.push(build_rec(c, rec, handles, withs)?); }
             let mut it = kids.into_iter();
-            let mut acc = Par::new(it.next().expect("par needs a child"));
+            // the first children are chained natively (Par::new(a).with(b).with(c)..., the way par! expands), so that a
+            // `with` meets a Par that already went through `with`; the rest is added to the boxed result one by one
+            macro_rules! step { ($e:expr) => {{ *withs += 1; let id = *withs; match catch_unwind(AssertUnwindSafe(move || $e)) { Ok(p) => p, Err(_) => return Err(id) } }} }
+            let first = it.next().expect("par needs a child");
+            let mut acc = match (it.next(), it.next(), it.next()) {
+                (None, _, _) => Par::new(first),
+                (Some(b), None, _) => { let p = Par::new(first); let p = step!(p.with(b)); Par::new(BoxNode(Box::new(p))) }
+                (Some(b), Some(c), None) => { let p = Par::new(first); let p = step!(p.with(b)); let p = step!(p.with(c)); Par::new(BoxNode(Box::new(p))) }
+                (Some(b), Some(c), Some(d)) => {
+                    let p = Par::new(first); let p = step!(p.with(b)); let p = step!(p.with(c)); let p = step!(p.with(d));
+                    Par::new(BoxNode(Box::new(p)))
+                }
+            };
             for k in it {
                 *withs += 1;
                 let id = *withs;
